@@ -2719,3 +2719,52 @@ package goatlang
 //@   callsite#sharedlocals (*compiler).run: arg_c.Locals == locals && arg_c.Globals == g && arg_c.Optimize == optimize
 //@ func compilePkgs loop 0
 //@   invariant#locals locals != nil && wfL(locals) && locals != g && wfL(g)
+
+// ---------------------------------------------------------------------------------------------
+// C19: the NewFunc adapters. Each wrapper takes the top argc stack values as the native's
+// arguments (in order), removes them, and appends the native's results (in order). Natives of the
+// args-taking forms are assumed (functype NewFunc.f) not to panic on their own account and to
+// leave the VM's operand stack alone: what is proved is the wrappers' own stack arithmetic.
+// ---------------------------------------------------------------------------------------------
+//@ func NewFunc
+//@   property C19
+//@   requires argc >= 0 && rets >= 0
+//@   allocates funcT
+//@ functype NewFunc.f(self int, vm *VM, args []Value, vargs []Value)
+//@   modifies allbut(H$VM)
+//@   nopanic
+//@   ensures stackKept()
+//@ func NewFunc closure 0
+//@   property C19
+//@   requires vm != nil && stackArr(arr(vm.stack))
+//@   modifies *
+//@   nopanic
+//@   ensures#delta len(vm.stack) == old(len(vm.stack)) + 1
+//@   ensures#below forall j int :: 0 <= j && j < old(len(vm.stack)) ==> vm.stack[j] == old(vm.stack[j])
+//@ func NewFunc closure 1
+//@   property C19
+//@   captures#argc argc >= 0
+//@   requires vm != nil && len(vm.stack) >= argc && stackArr(arr(vm.stack))
+//@   modifies *
+//@   nopanic
+//@   ensures#delta len(vm.stack) == old(len(vm.stack)) - argc
+//@   ensures#below forall j int :: 0 <= j && j < old(len(vm.stack)) - argc ==> vm.stack[j] == old(vm.stack[j])
+//@   callsite#args NewFunc.f: len(arg_args) == argc && (forall j int :: 0 <= j && j < argc ==> arg_args[j] == old(vm.stack[len(vm.stack) - argc + j]))
+//@ func NewFunc closure 2
+//@   property C19
+//@   captures#argc argc >= 0
+//@   requires vm != nil && len(vm.stack) >= argc && stackArr(arr(vm.stack))
+//@   modifies *
+//@   nopanic
+//@   ensures#delta len(vm.stack) == old(len(vm.stack)) - argc + 1
+//@   ensures#below forall j int :: 0 <= j && j < old(len(vm.stack)) - argc ==> vm.stack[j] == old(vm.stack[j])
+//@   callsite#args NewFunc.f: len(arg_args) == argc && (forall j int :: 0 <= j && j < argc ==> arg_args[j] == old(vm.stack[len(vm.stack) - argc + j]))
+//@ func NewFunc closure 3
+//@   property C19
+//@   captures#argc argc >= 0
+//@   requires vm != nil && len(vm.stack) >= argc && stackArr(arr(vm.stack))
+//@   modifies *
+//@   nopanic
+//@   ensures#delta len(vm.stack) >= old(len(vm.stack)) - argc
+//@   ensures#below forall j int :: 0 <= j && j < old(len(vm.stack)) - argc ==> vm.stack[j] == old(vm.stack[j])
+//@   callsite#args NewFunc.f: len(arg_args) == argc && (forall j int :: 0 <= j && j < argc ==> arg_args[j] == old(vm.stack[len(vm.stack) - argc + j]))
